@@ -543,6 +543,13 @@ impl ToTokens for DelegatingMethod<'_> {
         }
 
         self.sig.to_tokens(stream);
+        // the body of an `unsafe fn` is not an unsafe block (lint `unsafe_op_in_unsafe_fn`)
+        let call = if self.sig.unsafety.is_some() {
+            let call = &self.call;
+            quote! { unsafe { #call } }
+        } else {
+            self.call.clone()
+        };
         syn::token::Brace::default().surround(stream, |stream| {
             // if self.needs_async_move && self.trait_fn.entrait_sig.associated_fut.is_some() {
             if false {
@@ -552,7 +559,7 @@ impl ToTokens for DelegatingMethod<'_> {
                     syn::token::Move::default()
                 );
                 syn::token::Brace::default().surround(stream, |stream| {
-                    self.call.to_tokens(stream);
+                    call.to_tokens(stream);
                     push_tokens!(
                         stream,
                         syn::token::Dot::default(),
@@ -560,14 +567,14 @@ impl ToTokens for DelegatingMethod<'_> {
                     );
                 });
             } else if self.trait_fn.originally_async {
-                self.call.to_tokens(stream);
+                call.to_tokens(stream);
                 push_tokens!(
                     stream,
                     syn::token::Dot::default(),
                     syn::token::Await::default()
                 );
             } else {
-                self.call.to_tokens(stream);
+                call.to_tokens(stream);
             }
         });
     }
